@@ -1,9 +1,13 @@
 // C10 — Page selection and option chaining are algebraic; handles are released.
 // (A) every page selection spelling (sequences, ranges, two-call chains) x option sets x terminal
-//     operations on a 4-page PDF, against set semantics over the logical document;
+//
+//	operations on a 4-page PDF, against set semantics over the logical document;
+//
 // (B) explicit-state BFS over sequences of builder / non-terminal / terminal / Close operations on a
-//     shared base extractor and a derived one: results, independence of the base, file-descriptor
-//     accounting after every step, idempotent Close;
+//
+//	shared base extractor and a derived one: results, independence of the base, file-descriptor
+//	accounting after every step, idempotent Close;
+//
 // (C) failing terminals (out-of-range page, damaged file, missing file) release their handle.
 package main
 
@@ -16,6 +20,7 @@ import (
 
 	"github.com/tsawler/tabula"
 	"verif/internal/gen/pdfw"
+	"verif/internal/gen/samples"
 	"verif/internal/harness"
 )
 
@@ -167,6 +172,87 @@ func run(e *harness.Env) {
 	partB(e, path)
 	partC(e, dir, path, built.Bytes)
 	partD(e, path)
+	partE(e, dir)
+}
+
+// partE: every format releases its handle after every terminal operation, successful or failed
+// (valid sample of each format, its first half, and its bytes under every other extension).
+func partE(e *harness.Env, dir string) {
+	exts := []string{".pdf", ".docx", ".odt", ".xlsx", ".pptx", ".epub", ".html"}
+	for _, smp := range samples.Named() {
+		for _, variant := range []string{"valid", "truncated", "other-extension"} {
+			names := []string{smp.Name}
+			if variant == "other-extension" {
+				names = nil
+				for _, x := range exts {
+					if !strings.HasSuffix(smp.Name, x) {
+						names = append(names, strings.TrimSuffix(smp.Name, filepath.Ext(smp.Name))+"_as"+x)
+					}
+				}
+			}
+			for _, name := range names {
+				data := smp.Data
+				if variant == "truncated" {
+					data = data[:len(data)/2]
+				}
+				file := filepath.Join(dir, "e_"+variant+"_"+name)
+				for _, term := range []string{"Text", "ToMarkdown", "Document", "Chunks", "PageCount+Close", "derive+Text"} {
+					desc := harness.D("part", "E", "sample", smp.Name, "variant", variant, "as", name, "op", term)
+					if !e.Own(desc) {
+						continue
+					}
+					e.Begin(desc)
+					if err := os.WriteFile(file, data, 0o644); err != nil {
+						panic(err)
+					}
+					outcome := "ok"
+					sig, det := harness.Guard(func() {
+						ext := tabula.Open(file)
+						var err error
+						switch term {
+						case "Text":
+							_, _, err = ext.Text()
+						case "ToMarkdown":
+							_, _, err = ext.ToMarkdown()
+						case "Document":
+							_, _, err = ext.Document()
+						case "Chunks":
+							_, _, err = ext.Chunks()
+						case "PageCount+Close":
+							_, err = ext.PageCount()
+							ext.Close()
+							ext.Close()
+						case "derive+Text":
+							defer ext.Close()
+							_, _ = ext.PageCount()
+							_, _, err = ext.ExcludeHeadersAndFooters().Text()
+						}
+						if err != nil {
+							outcome = "error"
+						}
+					})
+					if sig == "" {
+						if n := fdCount(file); n != 0 {
+							sig, det = "handle-left-open-after-terminal:"+filepath.Ext(smp.Name), fmt.Sprintf("%d descriptors of %s still open after %s (%s)", n, name, term, outcome)
+						}
+					}
+					if strings.HasPrefix(sig, "panic@") {
+						// crashes on damaged input are C02's subject; here only the handle matters
+						if n := fdCount(file); n == 0 {
+							sig = ""
+							outcome = "panic(C02)"
+						}
+					}
+					os.Remove(file)
+					if sig != "" {
+						e.Fail(desc, sig, det, nil)
+						continue
+					}
+					e.Pass(desc, true, "formats:"+variant+":"+filepath.Ext(smp.Name)+":"+outcome)
+				}
+			}
+		}
+	}
 }
 
 // partD: two extractors derived from the same configured base are independent of each other and of the base.
